@@ -116,6 +116,13 @@ func genC11Sess(t *rapid.T) *C11SessCase {
 		}
 		c.Cfg = cfg
 	}
+	if rapid.IntRange(0, 3).Draw(t, "counterFails") == 0 {
+		// the counter store cannot hand out a number now and then: the answer to whatever arrived just then cannot be sent
+		for k := rapid.IntRange(1, 3).Draw(t, "nFailNexts"); k > 0; k-- {
+			cfg.FailNexts = append(cfg.FailNexts, rapid.IntRange(1, 12).Draw(t, "failNext"))
+		}
+		c.Cfg = cfg
+	}
 	n := rapid.IntRange(1, 12).Draw(t, "nSteps")
 	for i := 0; i < n; i++ {
 		if rapid.IntRange(0, 9).Draw(t, "valid") < 3 {
@@ -175,6 +182,9 @@ func checkC11Sess(c *C11SessCase, rec *evid.Rec) (vs []pbt.Violation) {
 	rec.Hist("role:" + c.Cfg.Role)
 	if len(c.Cfg.FailSaves) > 0 {
 		rec.Hist("message-store-refuses-some-saves")
+	}
+	if len(c.Cfg.FailNexts) > 0 {
+		rec.Hist("counter-store-cannot-number-some-messages")
 	}
 	rec.Extra("hostile_messages_delivered", int64(delivered))
 	if rec.WantSample() && delivered >= 2 {
